@@ -33,9 +33,13 @@ bool g_root_changed = false;
 std::string g_root_changed_what;
 long g_point[verif::POINT_NUM];
 
+long g_root_in_iter = 0;
+bool g_root_loop = false;
+
 void hook(verif::Point p, const verif::Ctx& c)
 {
     g_point[p]++;
+    if (p == verif::ITER_BEGIN) g_root_in_iter = 0;
     if (p == verif::NODE || p == verif::QNODE)
     {
         ++g_visits;
@@ -43,6 +47,12 @@ void hook(verif::Point p, const verif::Ctx& c)
         if (g_visit_cap && g_visits >= g_visit_cap && !g_cap_hit)
         {
             g_cap_hit = true;
+            ((Search*)c.search)->stop();
+        }
+        if (p == verif::NODE && c.a == 0 && ++g_root_in_iter > 3000 && !g_root_loop)
+        {
+            // logical witness of a non-terminating aspiration loop: the root re-searched thousands of times in ONE iteration
+            g_root_loop = true;
             ((Search*)c.search)->stop();
         }
         if (p == verif::NODE && c.a == 0 && PROP == "C03")
@@ -102,6 +112,7 @@ struct RunResult
     std::string text;
     long visits = 0;
     bool cap_hit = false;
+    bool root_loop = false;
     bool stopped_before_iter1 = false;
 };
 
@@ -125,6 +136,8 @@ RunResult run_go(Rig& rig, const Position& P, const Board& B, const GoSpec& g, l
     g_stop_at = g.stop_at;
     g_visit_cap = visit_cap;
     g_cap_hit = false;
+    g_root_loop = false;
+    g_root_in_iter = 0;
     g_root_entries = 0;
     g_root_changed = false;
     g_root_fen = P.fen();
@@ -141,6 +154,7 @@ RunResult run_go(Rig& rig, const Position& P, const Board& B, const GoSpec& g, l
     r.out = judge::parse(r.text);
     r.visits = g_visits;
     r.cap_hit = g_cap_hit;
+    r.root_loop = g_root_loop;
     r.stopped_before_iter1 = r.out.infos.empty();
     (void)iter_done_before;
     return r;
@@ -277,7 +291,16 @@ void judge_all(const Board& B, const GoSpec& g, const RunResult& r, const std::s
     if (PROP == "C09")
     {
         judge::c09(rec, B, r.out, c, g.infinite ? 0 : g.depth, g.searchmoves);
-        if (r.cap_hit) rec.violation("no-termination:visit-cap:" + std::string(g.depth ? "depth" : g.movetime ? "movetime" : "clock"), judge::exj(B, c, "search exceeded the node-visit cap and had to be stopped", std::to_string(r.visits), r.out));
+        if (r.root_loop)
+            rec.violation("no-termination:aspiration-loop", judge::exj(B, c, "the root was re-searched more than 3000 times within one iteration", std::to_string(r.visits), r.out));
+        // the node-visit cap is a verdict only where a TIME budget of at most a few seconds governs the search; a depth-limited
+        // search may legitimately be long (no finite run decides its termination: counted as unverified)
+        int stm_clock = B.stm == orc::WHITE ? g.wtime : g.btime;
+        bool time_governed = !g.infinite && g.depth == 0 && ((g.movetime != 0 && g.movetime <= 5000) || (g.movetime == 0 && stm_clock != 0 && stm_clock <= 5000));
+        if (r.cap_hit && time_governed)
+            rec.violation("no-termination:visit-cap:" + std::string(g.movetime ? "movetime" : "clock"), judge::exj(B, c, "time-limited search exceeded the node-visit cap and had to be stopped", std::to_string(r.visits), r.out));
+        else if (r.cap_hit)
+            rec.count("termination-unverified(visit cap hit on a depth-limited search)");
     }
     if (PROP == "C08" && table != "poisoned") judge::c08(rec, B, r.out, c, SOLVER_BUDGET);
     if (PROP == "C03")
@@ -366,6 +389,7 @@ int main(int argc, char** argv)
         GoSpec g;
         int kind = int(rng.below(PROP == "C09" ? 8 : 10));
         if (PROP == "C08") kind = rng.below(4) ? 0 : 7;
+        if (PROP != "C08" && rng.below(5) == 0) kind = 100;  // limit combinations
         switch (kind)
         {
         case 0:
@@ -403,6 +427,34 @@ int main(int argc, char** argv)
         case 7:
         {
             g.depth = 1 + int(rng.below(std::max(1, maxdepth - 1)));
+            break;
+        }
+        case 100:
+        {
+            // combinations: a depth limit together with clocks / movetime / nodes / movestogo / searchmoves
+            g.depth = 1 + int(rng.below(std::max(1, maxdepth - 1)));
+            int extra = int(rng.below(5));
+            if (extra == 0 || extra == 4)
+            {
+                static const int CL[] = {1, 50, 300, 2000, 30000, 600000};
+                g.wtime = CL[rng.below(6)];
+                g.btime = CL[rng.below(6)];
+                if (rng.below(2)) g.winc = g.binc = int(rng.below(3)) * 1000;
+                if (rng.below(2)) g.movestogo = 1 + int(rng.below(40));
+            }
+            if (extra == 1 || extra == 4)
+            {
+                static const int MT[] = {1, 20, 200, 60000};
+                g.movetime = MT[rng.below(4)];
+            }
+            if (extra == 2)
+            {
+                static const long NN[] = {1, 100, 5000, 100000};
+                g.nodes = NN[rng.below(4)];
+                g.movetime = rng.below(2) ? 50 : 0;
+            }
+            if (extra == 3) g.searchmoves = subset(legal, 1 + int(rng.below(4)));
+            rec.count("go-with-combined-limits");
             break;
         }
         default:
@@ -444,6 +496,29 @@ int main(int argc, char** argv)
                 set_cur(B, s, tbl);
                 RunResult r1 = run_go(*rig, P, B, s, CAP);
                 judge_all(B, s, r1, tbl);
+            }
+        }
+        if (PROP == "C08" && i % 2 == 0)
+        {
+            // an earlier restricted search of the SAME position in the same session (no `position` in between,
+            // so no epoch bump): `go searchmoves <non-mating moves>` then a plain `go` must still mate
+            std::vector<orc::Move> m1 = orc::mating_moves_in_one(B);
+            std::vector<orc::Move> others;
+            for (const orc::Move& m : legal)
+                if (std::find(m1.begin(), m1.end(), m) == m1.end()) others.push_back(m);
+            if (!m1.empty() && !others.empty())
+            {
+                GoSpec a;
+                a.depth = 2 + int(rng.below(3));
+                a.searchmoves = subset(others, 1 + int(rng.below(3)));
+                set_cur(B, a, "warm");
+                RunResult ra = run_go(*rig, P, B, a, CAP);
+                (void)ra;
+                GoSpec b2;
+                b2.depth = 1 + int(rng.below(a.depth));
+                set_cur(B, b2, "after-restricted-search-of-same-root");
+                RunResult rb = run_go(*rig, P, B, b2, CAP);
+                judge_all(B, b2, rb, "after-restricted-search-of-same-root");
             }
         }
         if (PROP == "C05" && i % 16 == 3)
